@@ -88,6 +88,48 @@ def confirm(src, sid, prop):
     return ok
 
 
+def run_scratch(sid, checks, tier='quick'):
+    """Like run(), but on a scratch worktree (VERIF_REPO) instead of /repo itself, so that several
+    seeds can be tried at the same time and /repo stays untouched (development aid; the official
+    way - git -C /repo apply - is run())."""
+    d = os.path.join(V, 'seeded', sid)
+    wt = '/tmp/seedrun/%s' % sid
+    shutil.rmtree(wt, ignore_errors=True)
+    sh('git -C /repo worktree prune')
+    rc, out = sh('git -C /repo worktree add --detach %s HEAD' % wt)
+    assert rc == 0, out
+    res = {}
+    try:
+        rc, out = sh('git apply %s/patch.diff' % d, cwd=wt)
+        if rc != 0:
+            rc, out = sh('git apply -3 %s/patch.diff' % d, cwd=wt)
+        assert rc == 0, out
+        env = dict(os.environ, VERIF_REPO=wt, VERIF_SCRATCH=sid)
+        for c in checks:
+            t0 = time.time()
+            rc, out = sh('./check %s %s' % (c, tier), cwd=V, env=env, timeout=7200)
+            viol = [l for l in out.splitlines() if l.startswith('VIOLATION')]
+            res[c] = {'exit': rc, 'violations': len(viol), 'first': (viol[:1] or [''])[0],
+                      'wall_s': round(time.time() - t0, 1), 'tier': tier}
+            first_detail = ''
+            lines = out.splitlines()
+            for i, l in enumerate(lines):
+                if l.startswith('VIOLATION') and i + 1 < len(lines):
+                    first_detail = lines[i + 1].strip()[:300]
+                    break
+            res[c]['detail'] = first_detail
+            print('%s %s: exit=%s violations=%d  %s' % (sid, c, rc, len(viol), first_detail[:200]))
+            if rc not in (0, 1):
+                print(out[-1500:])
+    finally:
+        sh('git -C /repo worktree remove --force %s' % wt)
+        shutil.rmtree(wt, ignore_errors=True)
+    mp = os.path.join(d, 'meta.json')
+    meta = json.load(open(mp))
+    meta.setdefault('detected_by', {}).update(res)
+    json.dump(meta, open(mp, 'w'), indent=1)
+
+
 def run(sid, checks, tier='quick'):
     d = os.path.join(V, 'seeded', sid)
     rc, out = sh('git -C /repo status --porcelain')
@@ -123,11 +165,11 @@ def run(sid, checks, tier='quick'):
 if __name__ == '__main__':
     if sys.argv[1] == 'confirm':
         sys.exit(0 if confirm(sys.argv[2], sys.argv[3], sys.argv[4]) else 1)
-    if sys.argv[1] == 'run':
+    if sys.argv[1] in ('run', 'run-scratch'):
         args = sys.argv[2:]
         tier = 'quick'
         if '--tier' in args:
             i = args.index('--tier')
             tier = args[i + 1]
             del args[i:i + 2]
-        run(args[0], args[1:], tier)
+        (run if sys.argv[1] == 'run' else run_scratch)(args[0], args[1:], tier)
